@@ -93,6 +93,10 @@ func (iv invocation) flags() []flagSpec {
 		f = append(f, flagSpec{name: "set"}, flagSpec{"setkeys", iv.keysArg(), true, false})
 	case "mset+keys":
 		f = append(f, flagSpec{name: "mset"}, flagSpec{"setkeys", iv.keysArg(), true, false})
+	case "set+mset":
+		// not a documented combination (the model has no opinion), but
+		// whatever it does must not depend on chance
+		f = append(f, flagSpec{name: "set"}, flagSpec{name: "mset"})
 	}
 	if iv.format != "jd" {
 		f = append(f, flagSpec{"f", iv.format, true, false})
@@ -113,7 +117,7 @@ func genInvocation(c *Chooser) invocation {
 	}
 	iv.yaml = c.Chance(1, 4)
 	iv.keyStyle = c.Int(4)
-	iv.arrays = []string{"list", "list", "list", "set", "mset", "setkeys", "list", "list", "set", "mset", "setkeys", "set+keys", "mset+keys"}[c.Int(13)]
+	iv.arrays = []string{"list", "list", "list", "set", "mset", "setkeys", "list", "list", "set", "mset", "setkeys", "set+keys", "mset+keys", "set+mset"}[c.Int(14)]
 	iv.format = []string{"jd", "jd", "patch", "merge"}[c.Int(4)]
 	if (iv.arrays == "list" || iv.arrays == "setkeys") && c.Chance(1, 8) {
 		iv.precision = []float64{0.001, 0.5, 1}[c.Int(3)]
@@ -329,6 +333,8 @@ func genSession14(c *Chooser) Session {
 			arr, keys = "set", []string{"id"}
 		case "mset+keys":
 			arr, keys = "mset", []string{"id"}
+		case "set+mset":
+			arr = "skip"
 		}
 		s.RT = &RoundTrip{Target: bn, Source: an, YAML: iv.yaml, Arrays: arr, Eps: iv.precision, Merge: iv.format == "merge", Keys: keys}
 	case 2: // S3 translate
@@ -530,7 +536,7 @@ func variants14(c *Chooser, s Session, base *sessRun) []Variant {
 		plan, ewd := genPlan(c)
 		vs = append(vs, Variant{Clause: "stdin-equiv", Proc: c.Int(len(s.Procs)), Plan: plan, EOFWithData: ewd})
 	}
-	vs = append(vs, Variant{Clause: "xbin"})
+	vs = append(vs, Variant{Clause: "xbin"}, Variant{Clause: "map-order"})
 	// fault sweep: every step of every process with each applicable failure,
 	// long runs of sector writes / stdin reads thinned to first, last, one middle
 	for i, res := range base.Res {
@@ -585,8 +591,8 @@ func variants14(c *Chooser, s Session, base *sessRun) []Variant {
 		// a session with very many distinct steps: keep the clause variants and
 		// a seeded sample of the fault variants (the cap is part of the run,
 		// so a seed explores the same cases on any machine)
-		keep := vs[:3]
-		rest := vs[3:]
+		keep := vs[:4]
+		rest := vs[4:]
 		for len(keep) < 300 && len(rest) > 0 {
 			i := c.Int(len(rest))
 			keep = append(keep, rest[i])
